@@ -133,7 +133,8 @@ CheckComp(dl, c) ==
       orc == Trace[dl].orc
       e   == CompOutcome(cfg, orc, c.argv, c.comp)
       df  == IF e.miss THEN {} ELSE CompDiff(cfg, e, c.res)
-  IN /\ (e.miss => PrintT(ToJson([k |-> "UNVERIFIABLE", id |-> c.id])))
+  IN /\ (c.id % 8 = 0 => TLCSet(2, TLCGet(2) \cup CompActs(cfg, orc, c.argv)))   \* a sample: the walk is a second evaluation
+     /\ (e.miss => PrintT(ToJson([k |-> "UNVERIFIABLE", id |-> c.id])))
      /\ (df # {} => PrintT(ToJson([k |-> "DIFF", id |-> c.id, fields |-> df, exp |-> e])))
 
 CheckHelp(dl, c) ==
